@@ -18,8 +18,17 @@
    code allows (Policy = "any": idle workers first, in any order, the rest to a least-loaded worker, ties
    free) or the deterministic instance the replay harness pins (Policy = "det").
 
+   With ClientCancels = TRUE the client does not wait for the result but cancels the compilation at an arbitrary
+   moment (ClientCancel = detached.py handle_cancel_comp_task: the server forgets the compilation's mailbox and
+   broadcasts CANCEL); the CANCEL may be handled before or after the RESULT of the finished root task that is already
+   on its way - handle_result books the completion first and then drops the result of a forgotten mailbox.
+
    Properties (checked by TLC): RunAtMostOnce, NoErr, CountersInBounds, ClientAnswered, NoResidue,
-   CountersAtRest (the last two are known to fail in the presence of cancellation - see DESIGN.md).
+   CountersAtRest (the last two are known to fail in the presence of cancellation - see DESIGN.md), and
+   CountsExplained: when idle, each worker's task count equals the tasks it was sent minus the completions it reported
+   (holds with cancellation too; what is left over is exactly what workers dropped without telling).
+   Mut = "count-after-early-return" is a deliberately broken variant of handle_result (bookkeeping after the early
+   return) used only to show that CountsExplained can fail.
    With Record = TRUE every action appends its name, its worker and a projection of the post-state to
    hist; behaviours printed by Dump are replayed into the real classes (harness/rtmodel.py). *)
 EXTENDS Naturals, Integers, Sequences, FiniteSets, TLC, Json
@@ -27,6 +36,8 @@ CONSTANTS NW,          \* number of workers
           Prog,        \* function name -> sequence of instructions
           RootFn,
           Policy,      \* "any" | "det"
+          ClientCancels, \* BOOLEAN: the client cancels at some moment instead of waiting for the result
+          Mut,         \* "none" | "count-after-early-return"
           Record       \* BOOLEAN: keep the action history (simulation / replay) or not (exhaustive runs)
 Workers == 0 .. NW-1
 Server == -1
@@ -49,7 +60,7 @@ Send(ch, w, m) == [ch EXCEPT ![w] = Append(@, m)]
 
 Init ==
   /\ up = [w \in Workers |-> <<>>] /\ down = [w \in Workers |-> <<>>]
-  /\ emp = [w \in Workers |-> [nt |-> 0, idle |-> 1, cache |-> <<>>]]
+  /\ emp = [w \in Workers |-> [nt |-> 0, idle |-> 1, cache |-> <<>>, fwd |-> 0, rep |-> 0]]   \* (fwd, rep: history - tasks sent to / completions heard from w)
   /\ clientRes = 0
   /\ tasks = [w \in Workers |-> <<>>]            \* function addr -> started record (as a TLA function with DOMAIN)
   /\ delayed = [w \in Workers |-> <<>>]
@@ -92,13 +103,22 @@ Schedule(ts, asg) ==   \* effect on down, emp
   /\ emp' = [w \in Workers |-> IF asg[w] = <<>> THEN emp[w]
                ELSE [nt |-> emp[w].nt + Len(asg[w]),
                      idle |-> emp[w].idle - (IF emp[w].idle < Len(asg[w]) THEN emp[w].idle ELSE Len(asg[w])),
-                     cache |-> Append(emp[w].cache, <<asg[w][1].addr, Len(asg[w])>>)]]
+                     cache |-> Append(emp[w].cache, <<asg[w][1].addr, Len(asg[w])>>),
+                     fwd |-> emp[w].fwd + Len(asg[w]), rep |-> emp[w].rep]]
 
 ClientSubmit ==
   /\ clientRes = 0 /\ runs = <<>> /\ \A w \in Workers : down[w] = <<>> /\ emp[w].nt = 0
   /\ \E asg \in Assignments(<<Task(RootFn, RootAddr, <<>>)>>) : Schedule(<<>>, asg)
   /\ runs' = Put(runs, RootAddr, 0)
   /\ UNCHANGED <<up, clientRes, tasks, delayed, readyq, cancelled, mbox, ctr, receipt, mainpc, errs>>
+
+\* the client gives up: handle_cancel_comp_task forgets the compilation (its mailbox) and broadcasts CANCEL for the root task
+Cancelled == 0 - 1
+ClientCancel ==
+  /\ ClientCancels /\ runs # <<>> /\ clientRes = 0
+  /\ clientRes' = Cancelled
+  /\ down' = [v \in Workers |-> Append(down[v], [t |-> "CANCEL", addr |-> RootAddr])]
+  /\ UNCHANGED <<up, emp, tasks, delayed, readyq, cancelled, mbox, ctr, receipt, mainpc, runs, errs>>
 
 SentSince(cache, r) ==
   IF r = None THEN [n |-> 0, c |-> cache]   \* placeholder, fixed below
@@ -117,12 +137,14 @@ ServerRecv(w) ==
                /\ UNCHANGED <<clientRes, errs>>
           [] m.t = "RESULT" ->
                /\ IF m.addr[1] = Server
-                    THEN /\ clientRes' = m.val /\ down' = down
+                    THEN /\ clientRes' = IF clientRes = Cancelled THEN clientRes ELSE m.val     \* the mailbox of a cancelled compilation is gone
+                         /\ down' = down
                     ELSE /\ clientRes' = clientRes
                          /\ down' = Send(down, m.addr[1], [t |-> "RESULT", addr |-> m.addr, val |-> m.val])
-               /\ emp' = [emp EXCEPT ![m.by].nt = @ - 1]
+               /\ emp' = [emp EXCEPT ![m.by].nt = IF Mut = "count-after-early-return" /\ m.addr[1] = Server /\ clientRes = Cancelled THEN @ ELSE @ - 1,
+                                      ![m.by].rep = @ + 1]
                /\ UNCHANGED errs
-          [] m.t = "UPDATE" -> /\ emp' = [emp EXCEPT ![w].nt = @ + m.d] /\ UNCHANGED <<down, clientRes, errs>>
+          [] m.t = "UPDATE" -> /\ emp' = [emp EXCEPT ![w].nt = @ + m.d, ![w].rep = @ + 1] /\ UNCHANGED <<down, clientRes, errs>>
           [] m.t = "WAITING" ->
                /\ LET c2 == IF m.r = None THEN emp[w].cache ELSE DropUntil(emp[w].cache, m.r)
                       unacc == IF m.r = None THEN SumCounts(c2) ELSE SumCounts(Tail(c2))
@@ -273,6 +295,7 @@ Proj == [rq |-> [w \in Workers |-> Len(readyq'[w])], dl |-> [w \in Workers |-> L
          pc |-> [w \in Workers |-> mainpc'[w]], res |-> clientRes']
 Act(name, w) == hist' = IF Record THEN Append(hist, [a |-> name, w |-> w, p |-> Proj]) ELSE hist
 Next == \/ (ClientSubmit /\ Act("ClientSubmit", 0))
+        \/ (ClientCancel /\ Act("ClientCancel", 0))
         \/ \E w \in Workers : \/ (ServerRecv(w) /\ Act("ServerRecv", w))
                                \/ (WorkerIn(w) /\ Act("WorkerIn", w))
                                \/ (StepTask(w) /\ Act("StepTask", w))
@@ -289,7 +312,9 @@ Quiescent == /\ \A w \in Workers : up[w] = <<>> /\ down[w] = <<>> /\ readyq[w] =
 QuiescentGood == Quiescent => /\ clientRes # 0 /\ \A w \in Workers : tasks[w] = <<>> /\ mbox[w] = <<>> /\ emp[w].nt = 0 /\ emp[w].idle = 1
 NoResidue == Quiescent => \A w \in Workers : tasks[w] = <<>> /\ mbox[w] = <<>>
 CountersAtRest == Quiescent => \A w \in Workers : emp[w].nt = 0 /\ emp[w].idle = 1
-ClientAnswered == Quiescent => clientRes # 0
+ClientAnswered == Quiescent => (clientRes # 0 \/ ClientCancels)
+\* the bookkeeping statement that survives cancellation: what a worker was sent minus what it reported
+CountsExplained == Quiescent => \A w \in Workers : emp[w].nt = emp[w].fwd - emp[w].rep
 \* simulation mode: print the action history of every behaviour that reaches the idle state
 Dump == IF Record /\ Quiescent THEN PrintT(<<"BEHAVIOUR", ToJson(hist)>>) ELSE TRUE
 =============================================================================
